@@ -209,6 +209,10 @@ func (c *fileConn) QueryContext(ctx context.Context, query string, args []driver
 }
 
 func (stmt *fileStmt) query(values []string) (driver.Rows, error) {
+	if err := checkNumInput(stmt.q, len(values)); err != nil {
+		return nil, err
+	}
+
 	q := queryparser.ReplacePlaceholders(stmt.q, values)
 
 	qq := convert.ToQuery(q)
@@ -247,6 +251,17 @@ func numInput(q *updogv1.Query) int {
 	})
 
 	return int(maxPlaceholder)
+}
+
+// checkNumInput makes sure that there is an argument for every placeholder.
+// database/sql only checks the number of arguments for prepared statements;
+// DB.Query with arguments reaches the driver unchecked.
+func checkNumInput(q *updogv1.Query, numValues int) error {
+	if n := numInput(q); numValues < n {
+		return fmt.Errorf("query requires %d arguments, got %d", n, numValues)
+	}
+
+	return nil
 }
 
 func (stmt *fileStmt) NumInput() int {
@@ -433,6 +448,10 @@ func (stmt *grpcStmt) Query(args []driver.Value) (driver.Rows, error) {
 }
 
 func (stmt *grpcStmt) query(values []string) (driver.Rows, error) {
+	if err := checkNumInput(stmt.q, len(values)); err != nil {
+		return nil, err
+	}
+
 	q := queryparser.ReplacePlaceholders(stmt.q, values)
 
 	result, err := stmt.c.client.Query(context.Background(), &updogv1.QueryRequest{
